@@ -63,7 +63,7 @@ fn t(name: &str, code: String, budgets: &[(&str, u32)]) -> Template {
 	}
 }
 
-pub const N_TEMPLATES: usize = 43;
+pub const N_TEMPLATES: usize = 46;
 
 pub fn template(idx: usize, c: i64) -> Template {
 	match idx % N_TEMPLATES {
@@ -268,6 +268,21 @@ pub fn template(idx: usize, c: i64) -> Template {
 			"unneeded-locals-of-every-shape",
 			format!("local u1 = {{ [error 'bomb1']: 1 }}, u2 = [error 'bomb2'][0], u3 = {{ assert error 'bomb3' }}, u4 = 'x%s' % error 'bomb4', u5 = (import 'once.libsonnet').unused; local o = {{ local v = {{ [error 'bomb5']: 1 }}, a: std.trace('L3', {c}) }}; {{ r1: o.a, r2: std.length([u1, u2, u3, u4, u5]) }}"),
 			&[("L3", 1), ("L1", 0), ("L2", 0)],
+		),
+		42 => t(
+			"stdlib-lazy-parameters",
+			format!("local o = {{ v: std.trace('L1', {c}), h:: error 'bomb1', t:: std.trace('L2', 2), assert true }}; {{ r1: std.get(o, 'h', 'dflt', false), r2: std.get(o, 'v', error 'bomb2'), r3: std.get(o, 't', 0, false), r4: std.objectHas(o, 'h'), r5: std.length(std.objectValues({{ a: error 'bomb3' }})), r6: std.length(std.objectValuesAll({{ a:: error 'bomb4' }})), r7: std.objectHasAll(o, 'h'), r8: std.length(std.objectFieldsAll(o)) }}"),
+			&[("L1", 1), ("L2", 0)],
+		),
+		43 => t(
+			"stdlib-hof-element-laziness",
+			format!("local arr = [std.trace('L1', {c}), std.trace('L2', 2), error 'bomb1']; {{ r1: std.length(std.map(function(x) x + 1, arr)), r2: std.filter(function(x) x > 0, arr[0:2]), r3: std.find(2, arr[0:2]), r4: std.foldl(function(a, b) a + b, arr[0:2], 0), r5: std.length(std.makeArray(3, function(i) arr[i])), r6: std.length(arr + arr) }}"),
+			&[("L1", 1), ("L2", 1)],
+		),
+		44 => t(
+			"mergepatch-and-mapwithkey-laziness",
+			format!("local t = {{ keep: std.trace('L1', {c}), unused: error 'bomb1', gone: error 'bomb2' }}; local m = std.mergePatch(t, {{ gone: null, extra: std.trace('L2', 2) }}); local k = std.mapWithKey(function(k, v) v, {{ a: std.trace('L3', 3) }}); {{ r1: m.keep, r2: m.keep + m.extra, r3: std.objectFields(m), r4: k.a, r5: std.length(k) }}"),
+			&[("L1", 1), ("L2", 1), ("L3", 1)],
 		),
 		_ => t(
 			"import-evaluated-once",
